@@ -124,6 +124,12 @@ def execute(prog, how, pol, seed, monitors, rrt_exp=None, fresh_scheduler=True):
             rt.n_identity_checks = getattr(rt, "n_identity_checks", 0) + 1
             if rt.excs.get(tag) is not e:
                 rt.violation("escaping-exception-is-not-the-raised-instance", {"exc": lang.exc_desc(e)})
+    if "restore" in monitors:
+        for name, dv in rt.defaults.items():
+            rt.n_restore_checks = getattr(rt, "n_restore_checks", 0) + 1
+            cur = rt.read(None, name)
+            if cur != dv:
+                rt.violation("override-not-restored", {"name": name, "value_after_computation": cur, "default": dv, "outcome": out[0]})
     if "order" in monitors:
         M.start_order_check(rt)
     if "orphans" in monitors:
@@ -144,6 +150,7 @@ COUNTER_ATTRS = [
     "n_orphans",
     "n_completion_checks",
     "n_identity_checks",
+    "n_restore_checks",
     "model_disagreements",
 ]
 
